@@ -140,6 +140,8 @@ def ref_meta_expansion(n, info, memo):
 
 
 class Metadata(Facet):
+    deciders = ("maxdepth", "full", "pigrow", "progressive")
+
     name = "node_metadata"
     ref = staticmethod(ref_meta)
     flags = Flags(dependent=False, user_mh=True, max_concrete=6, tuples=True, unions=True)
@@ -149,7 +151,7 @@ class Metadata(Facet):
         return (120, 8) if tier == "quick" else (300, 16)
 
     def strategy(self, tier):
-        return world_cases(self.flags, reps=self.reps, deciders=("maxdepth", "full", "pigrow", "progressive"), max_ops=8, depth_extras=(1, 2, 3))
+        return world_cases(self.flags, reps=self.reps, deciders=self.deciders, max_ops=8, depth_extras=(1, 2, 3))
 
     def run(self, case, rec):
         try:
@@ -267,6 +269,9 @@ class MetadataExpansion(Metadata):
     flags = Flags(class_fields_only=True, expansion=True, lists=True, bare_lists=True, nested_generics=True, tuples=False, unions=False, refined=False, dependent=False, user_mh=False,
                   max_abstract=5, max_concrete=7, nested_abstract=True, self_refs=False, plain_classes=True, max_list_size=2)
     reps = ("tree", "ge", "dsge")
+    # (no depth-unbounded decider here: on class-only grammars with bare lists of recursive productions
+    # its trees grow to millions of nodes - the open C01 finding - and a case runs for minutes)
+    deciders = ("maxdepth", "full", "pigrow")
 
     def budget(self, tier):
         return (60, 4) if tier == "quick" else (300, 8)
